@@ -328,6 +328,9 @@ func (r *run) judge(o judgeOpts) []finding {
 				if r.reqs[ex.Req].Faulted == "set" {
 					ctx = "after-storage-set-fault"
 				}
+				if strings.HasPrefix(r.reqs[ex.Req].Faulted, "getdata") && r.plan.Data != "garbage" {
+					ctx = "after-undecodable-record"
+				}
 			}
 			var who []string
 			for _, ex := range succ {
@@ -360,6 +363,7 @@ func (r *run) judge(o judgeOpts) []finding {
 			switch {
 			case rq.Errored:
 				ok := rq.Faulted == "lock" || rq.Faulted == "get1" || rq.Faulted == "get2" || rq.Faulted == "set" ||
+					(strings.HasPrefix(rq.Faulted, "getdata") && r.plan.Data != "garbage") ||
 					(own != nil && own.Fail)
 				if !ok {
 					add("spurious-error|"+errClass(rq.ErrMsg), fmt.Sprintf("request %d answered with an error (%s) although neither its handler nor any of its lock/storage calls failed", rq.Idx, rq.ErrMsg))
